@@ -15,6 +15,8 @@ import (
 	"sort"
 	"strings"
 	"sync"
+	"sync/atomic"
+	"time"
 	"testing"
 	"unicode/utf8"
 
@@ -182,6 +184,7 @@ type Stats struct {
 	KnownMsg    map[string]string      `json:"known_msg"`
 	Samples     []Sample               `json:"samples"`
 	Violation   *Violation             `json:"violation,omitempty"`
+	Hang        *Violation             `json:"hang,omitempty"`
 	Extra       map[string]interface{} `json:"extra,omitempty"`
 	Rules       map[string]string      `json:"rules"`
 	Exhaustive  map[string]bool        `json:"exhaustive,omitempty"`
@@ -233,7 +236,7 @@ func Account(id string, c interface{}, r *Rec) bool {
 	}
 	for k, n := range r.known {
 		stats.Known[k] += int64(n)
-		if _, ok := stats.KnownMsg[k]; !ok {
+		if old, ok := stats.KnownMsg[k]; !ok || len(r.knownMsg[k]) < len(old) {
 			stats.KnownMsg[k] = r.knownMsg[k]
 		}
 	}
@@ -315,6 +318,50 @@ func SafeCheck[C any](p Prop[C], c C, r *Rec) {
 		}
 	}()
 	p.Check(c, r)
+}
+
+type watched struct {
+	id    string
+	c     interface{}
+	start time.Time
+}
+
+var current atomic.Pointer[watched]
+
+// StartWatchdog starts a goroutine that turns a case running longer than limit into a "suspected
+// hang" record: the case is written to the shard statistics (Stats.Hang) and the process exits with
+// status 3. The driver confirms the hang in a fresh process before it counts as a violation.
+func StartWatchdog(limit time.Duration) {
+	go func() {
+		for {
+			time.Sleep(time.Second)
+			w := current.Load()
+			if w == nil || time.Since(w.start) < limit {
+				continue
+			}
+			raw, _ := json.Marshal(w.c)
+			mu.Lock()
+			stats.Hang = &Violation{Check: w.id, Message: fmt.Sprintf("did not return within %v (suspected hang)", limit), Case: raw}
+			mu.Unlock()
+			Flush(false)
+			os.Exit(3)
+		}
+	}()
+}
+
+// RunWatched is Run with the current case published to the watchdog.
+func RunWatched[C any](t *testing.T, p Prop[C]) {
+	t.Helper()
+	rapid.Check(t, func(rt *rapid.T) {
+		c := p.Gen(rt)
+		r := &Rec{}
+		current.Store(&watched{id: p.ID, c: c, start: time.Now()})
+		SafeCheck(p, c, r)
+		current.Store(nil)
+		if Account(p.ID, c, r) {
+			rt.Fatalf("VIOLATION %s: %s", p.ID, r.fail)
+		}
+	})
 }
 
 // Run drives a property with rapid. All randomness is inside p.Gen.
